@@ -94,8 +94,10 @@ func show(v any) string {
 
 func main() {
 	// The live heap is a few kilobytes and every execution allocates fresh
-	// objects: collect less often.
-	debug.SetGCPercent(1600)
+	// objects: collect less often, but never let the heap goal run away (on a
+	// loaded machine the bytes allocated during a slow mark phase count as live).
+	debug.SetGCPercent(800)
+	debug.SetMemoryLimit(1 << 30)
 
 	runlib.Main(func(c *runlib.Ctx) {
 		ms, ss := mapSetAPI(), sortedSliceSetAPI()
